@@ -221,7 +221,7 @@ def _run_shard(args):
         else:
             f.write("Definition cases : list N := [\n" + ";\n".join(terms) + "\n].\n")
             f.write("Eval vm_compute in cases.\n")
-    rc, out = sh(["coqc", "-noglob", "-Q", COQ, "NW", p], cwd=WORK, timeout=900)
+    rc, out = sh("ulimit -s unlimited 2>/dev/null || ulimit -s 1000000 2>/dev/null; exec coqc -noglob -Q %s NW %s" % (COQ, p), cwd=WORK, timeout=900)
     if rc != 0:
         return idx, None, out
     m = re.search(r"=\s*\[(.*?)\]\s*(%N)?\s*:\s*list N", out, flags=re.S)
